@@ -95,6 +95,7 @@ class Run:
         self.files = {}
         self.pool = {}
         self.link_handles = set()
+        self.stale_writers = {}
         self.ops = []
         self.trace = []
         self.stats = Counter()
@@ -138,6 +139,7 @@ class Run:
     def drop_handles(self, fs=None):
         self.pool.clear()
         self.link_handles.clear()
+        self.stale_writers.clear()
 
     # -------------------------------------------------------------------- handles
     CONT = {"block": "blocks", "group": "groups", "array": "data_arrays", "frame": "data_frames",
@@ -157,7 +159,11 @@ class Run:
             for k in list(self.pool):
                 self.pool[k] = [h for h in self.pool[k] if id(h) not in self.link_handles]
             if owner is not None and emptied:
-                self.pool.pop(id(owner), None)
+                # such handles show a stale view (F14a) but writes through them re-resolve the
+                # group and must still take effect: they are kept for write-only use
+                hs = self.pool.pop(id(owner), None)
+                if hs:
+                    self.stale_writers.setdefault(id(owner), []).extend(hs)
             self.stats["masked:stale_handle"] += 1
 
     def siblings(self, m):
